@@ -453,6 +453,18 @@ class Runner:
 
         # ---- the iff of the property, evaluated by the reference with real primitives, BEFORE the call
         expected, why = self.ref_iff(cur, body)
+        # self-check of the harness: a message built honestly from what the controller knows
+        # (own context, registered key, untouched material) must satisfy the evaluated iff
+        u0 = parse_uuid(ident)
+        honest = (
+            cur is not None and mat == "correct" and outer == "correct" and mal in ("none", "pad", "proof_first")
+            and key != "junk" and u0 is not None and u0 in self.ref_paired
+            and self.ref_paired[u0]["key"] == self.pub(key)
+        )
+        if honest and not expected:
+            raise AssertionError(f"harness self-check: honest message judged invalid by the reference ({why}); op={op}")
+        if expected and not honest:
+            self.coincidences = getattr(self, "coincidences", 0) + 1
         # tables: real AEAD / Ed25519 / uuid answers on this concrete input
         self.fill_tables(body)
 
